@@ -211,6 +211,24 @@ Definition call_wf (naddr nroles : N) (avs : list (argv * N)) (c : call) : bool 
 Definition ob_count (o : obs) (r : role) : Z :=
   match alist_get r (o_cnt o) with Some n => n | None => 0 end.
 
+(* ---------------- the role enumeration as the getters show it ---------------- *)
+(* get_role_member(0 .. count-1) lists accounts of the observed universe, none twice; get_role_member_count is
+   its length; has_role(account) is the position of the account in it (None when it is not enumerated).  So the
+   accounts that pass ensure_role / only_role / the executor checks are exactly the enumerated ones, and every
+   enumerated account is shown by has_role at the index at which get_role_member returns it. *)
+Fixpoint nodupb (l : list N) : bool :=
+  match l with [] => true | x :: r => negb (mem_n x r) && nodupb r end.
+Definition enum_ok (naddr : N) (o : obs) : bool :=
+  forallb (fun p => nodupb (snd p) && forallb (in_upto naddr) (snd p) && (ob_count o (fst p) =? Z.of_nat (length (snd p))))
+          (o_mem o)
+  && forallb (fun t => match alist_get (snd (fst t)) (o_mem o) with
+                       | Some l => oz_eqb (snd t) (index_of (fst (fst t)) l 0)
+                       | None => false
+                       end) (o_has o).
+(* the constructor's grants: every listed account once, in the order of its first appearance *)
+Definition add_member (l : list N) (x : N) : list N := if mem_n x l then l else l ++ [x].
+Definition dedup (l : list N) : list N := fold_left add_member l [].
+
 Section Monitor.
   Variable hash : op -> id.
   Variable aid : argv -> N.
@@ -322,8 +340,8 @@ Section Monitor.
         end)
     && (match c with
         | GrantRole a r _ _ => roles_changed_only_at r a (if ob_has before a r then 0 else 1) before after && ob_has after a r
-        | RevokeRole a r _ _ => roles_changed_only_at r a (-1) before after && ob_has before a r
-        | RenounceRole r k _ => roles_changed_only_at r k (-1) before after && ob_has before k r
+        | RevokeRole a r _ _ => roles_changed_only_at r a (-1) before after && ob_has before a r && negb (ob_has after a r)
+        | RenounceRole r k _ => roles_changed_only_at r k (-1) before after && ob_has before k r && negb (ob_has after k r)
         | _ => roles_same before after
         end)
     && (match c with
@@ -356,7 +374,7 @@ Section Monitor.
 
   Definition obs_step_ok (pend : option (tentry addr)) (before : obs) (e : event) : option (list Timelock.call) :=
     let '(c, out, after) := e in
-    if negb (obs_coherent after && obs_shape ids naddr nroles tags after && call_wf naddr nroles avs c) then None
+    if negb (obs_coherent after && obs_shape ids naddr nroles tags after && enum_ok naddr after && call_wf naddr nroles avs c) then None
     else match out with
          | Fail => if obs_eqb after before then Some [] else None
          | Ok r =>
@@ -413,9 +431,17 @@ Section Monitor.
 End Monitor.
 
 (* the first observation: well-shaped, nothing scheduled, no target run, the constructor's minimum delay and
-   admin, no role admins (the initial role membership is compared by the diff only) *)
+   admin, no role admins; the proposers given to the constructor (each once) are the proposers and the
+   cancellers, the executors given are the executors, no other role has a member; the enumerations are coherent *)
+Definition mem0_ok (h : header) : bool :=
+  forallb (fun p => list_eqb N.eqb (snd p)
+                      (if N.eqb (fst p) PROPOSER || N.eqb (fst p) CANCELLER then dedup (h_props h)
+                       else if N.eqb (fst p) EXECUTOR then dedup (h_execs h) else []))
+          (o_mem (h_obs0 h)).
 Definition obs0_ok (h : header) : bool :=
   obs_coherent (h_obs0 h) && obs_shape (h_ids h) (h_naddr h) (h_nroles h) (h_tags h) (h_obs0 h)
+  && forallb (in_upto (h_naddr h)) (h_props h ++ h_execs h)
+  && enum_ok (h_naddr h) (h_obs0 h) && mem0_ok h
   && (o_now (h_obs0 h) =? h_now h)
   && oz_eqb (o_min (h_obs0 h)) (Some (h_min h))
   && on_eqb (o_admin (h_obs0 h)) (Some (match h_admin h with Some a => a | None => self (h_cfg h) end))
@@ -624,6 +650,44 @@ Example ex_bad_trapping_getter :
      Obs9 100 (Some 2) [(1%N, OV9 0 Unset false false false false true)] (o_admin (ex_obs ex_s0)) (o_has (ex_obs ex_s0))
           (o_cnt (ex_obs ex_s0)) (o_mem (ex_obs ex_s0)) (o_radmin (ex_obs ex_s0)) (o_existing (ex_obs ex_s0)) (o_runs (ex_obs ex_s0)))]) = 1%N.
 Proof. vm_compute. reflexivity. Qed.
+
+(* ---------------- role enumerations: four executors, swap-and-pop ---------------- *)
+(* proposer 2, executors 3 4 5 6, external admin 7 (revokes directly) *)
+Definition en_s0 : state :=
+  match construct ex_cf 100 2 [2%N] [3%N; 4%N; 5%N; 6%N] (Some 7%N) with Ok s => s | Fail => ex_s0 end.
+Definition en_hdr := model_header ex_cf 100 2 [2%N] [3%N; 4%N; 5%N; 6%N] (Some 7%N) [] 7%N 3%N [] [] [] en_s0.
+Definition en_rev (a : addr) := RevokeRole a 2 7 (AZ [7%N] None []).
+Arguments en_rev _%N_scope.
+Definition en_run (cs : list call) := run (hash_of []) (aid_of []) ex_cf en_s0 cs.
+Definition en_obs (cs : list call) : obs := observe en_hdr (en_run cs).
+Definition set_has (o : obs) (a : addr) (r : role) (v : option Z) : obs :=
+  Obs9 (o_now o) (o_min o) (o_ops o) (o_admin o)
+       (map (fun t => if N.eqb (fst (fst t)) a && N.eqb (snd (fst t)) r then (a, r, v) else t) (o_has o))
+       (o_cnt o) (o_mem o) (o_radmin o) (o_existing o) (o_runs o).
+Arguments set_has _ _%N_scope _%N_scope _.
+Example ex_enum_good :
+  check (en_hdr, model_events en_hdr en_s0 [en_rev 4; en_rev 6; en_rev 5; en_rev 3]) = (0, 0, 0)%N
+  /\ mem_list (acs (en_run [en_rev 4])) 2%N = [3; 6; 5]%N
+  /\ mem_list (acs (en_run [en_rev 4; en_rev 6; en_rev 5])) 2%N = [3%N].
+Proof. vm_compute. repeat split. Qed.
+(* the account moved into the vacated slot keeps a stale index: has_role(6) = Some 2 although get_role_member(1) = 6 *)
+Example ex_bad_stale_index :
+  monitor (en_hdr, [(en_rev 4, OkN, set_has (en_obs [en_rev 4]) 6 2 (Some 2))]) = 1%N.
+Proof. vm_compute. reflexivity. Qed.
+(* ... which two revocations later lets the revoked executor 6 hold the role again *)
+Example ex_bad_revoked_holds_again :
+  monitor (en_hdr, model_events en_hdr en_s0 [en_rev 4; en_rev 6]
+                   ++ [(en_rev 5, OkN, set_has (en_obs [en_rev 4; en_rev 6; en_rev 5]) 6 2 (Some 0))]) = 3%N.
+Proof. vm_compute. reflexivity. Qed.
+(* a revocation that reports success and leaves the account a member *)
+Example ex_bad_revoke_without_effect :
+  monitor (en_hdr, [(en_rev 4, OkN, en_obs [])]) = 1%N.
+Proof. vm_compute. reflexivity. Qed.
+(* the constructor made an account an executor that was not in its list *)
+Example ex_bad_initial_membership :
+  monitor (Hdr9 ex_cf 100 2 [2%N] [3%N; 4%N; 5%N] (Some 7%N) [] 7%N 3%N [] [] [] 0 1 (en_obs []), []) = 1%N
+  /\ monitor (en_hdr, []) = 0%N.
+Proof. vm_compute. split; reflexivity. Qed.
 
 (* small runs for the non-vacuity Examples of Properties/C09.v *)
 Definition nv_opE := Op 1 11 8 0 0.                      (* grant_role(controller, EXECUTOR, controller) *)
